@@ -30,14 +30,14 @@ class C16(pw.P21Check):
     sizes = [1, 2, 3, 5, 8]
 
     def n_plans(self, tier):
-        return 10000 if tier == "quick" else 200000
+        return 16000 if tier == "quick" else 200000
 
     def time_budget(self, tier):
         return 120 if tier == "quick" else 1200
 
     def gen(self, seed, i, tier):
         r = core.rng(seed, "C16", i)
-        nbase = 50 if tier == "quick" else 1500
+        nbase = 330 if tier == "quick" else 3000
         plan = self.base_plan(seed, r.randrange(nbase))
         insts = plan["model"]["insts"]
         referenced = set()
